@@ -244,3 +244,14 @@ def run(ctx):
     r = ctx.rule("R6c", "aarch64: the fixed save slots end below the first spill slot and do not overlap", 4)
     for kind in X64.KINDS:
         ctx.guarded(r, XC.check_fixed_area, kind)
+    # a simplified tape is evaluated like any other: its advertised choice count sizes the choice array the
+    # tracing loops and the native code walk, so a surviving choice op that is not counted makes the next
+    # evaluation run off the end of that array (`choices.next().unwrap()` / a stray byte store)
+    from .. import simplify as S_
+
+    r = ctx.rule("R8", "simplification recounts its choices: every choice op that survives (Both) adds one to the new tape's choice count, decided ones add none; op accounting and the result struct", 8 + 6)
+    ctx.guarded(r, S_.r2_left_right)
+    ctx.guarded(r, S_.r_tail)
+    r = ctx.rule("R4c", "native loads and stores of inputs, outputs and spill slots move exactly one element of the evaluator's type (a wider access reads or writes past the caller's slice)", 16)
+    for kind in AC_.ALL:
+        ctx.guarded(r, AC_.check_simple_builders, kind, only=("build_input", "build_output", "build_load", "build_store"))
